@@ -24,7 +24,7 @@ UNITS = ["algos", "baseCells", "bbox", "coordijk", "directedEdge", "faceijk", "h
          "polyfill", "polygon", "vec2d", "vec3d", "vertex", "vertexGraph"]
 NSLOTS = 16
 SLOT_GB = 3
-MEMCLASS = {"S": (1, 3), "M": (3, 9), "L": (6, 18), "X": (10, 30)}  # class -> (slots, ulimit GB)
+MEMCLASS = {"S": (1, 4), "M": (2, 9), "L": (5, 18), "X": (9, 30)}  # class -> (slots, ulimit GB)
 UB_FLAGS = ["--bounds-check", "--pointer-check", "--div-by-zero-check", "--signed-overflow-check",
             "--undefined-shift-check", "--conversion-check", "--float-overflow-check", "--nan-check"]
 
@@ -177,6 +177,7 @@ def cbmc_cmd(job, gb, trace):
         c += ["--unwindset", ",".join("%s:%d" % kv for kv in job["unwindset"].items())]
     if job.get("depth"):
         c += ["--depth", str(job["depth"])]
+
     checks = job.get("checks", "none")
     if checks == "none":
         c += ["--no-standard-checks"]
